@@ -719,6 +719,7 @@ class Runner(object):
         if p.returncode != 0:
             raise HarnessBroken('drv_repo exit %d: %s' % (p.returncode, p.stderr.decode('utf-8', 'replace')[-300:]))
         text = p.stdout.decode('utf-8', 'replace')
+        self.last_stderr = p.stderr.decode('utf-8', 'replace')
         res = []
         npre = len(cfg.pre)
         for block in ('\n' + text).split('\nH ')[1:]:
@@ -767,6 +768,8 @@ class Checker(object):
         self.obs_cache = {}       # state -> (exp, rendered)
         self.cmp_cache = {}       # (state, mask, obs text) -> (diffs, dev)
         self.prefix = {}          # ops prefix -> (transcript of its last step, verdict)
+        self.asan = False
+        self.stderr = ''          # driver stderr of the whole batch (sanitizer reports, assertion messages)
 
     def exp_obs(self, state):
         r = self.obs_cache.get(state)
@@ -782,7 +785,7 @@ class Checker(object):
             return
         seen.add(key)
         hist = hist[:i + 1]
-        case = {'config': cfg.as_json(), 'ops': [list(o) for o in hist], 'step': i,
+        case = {'config': cfg.as_json(), 'ops': [list(o) for o in hist], 'step': i, 'asan': self.asan,
                 'expected': expected, 'observed': observed}
         self.part.violation(key, '%s | setup=%s files=%s ops=%s' % (
             desc, cfg.setup, ' '.join('%s/%s-%s[%s]' % f for f in cfg.files) or '(none)',
@@ -871,8 +874,12 @@ class Checker(object):
         if status != 'exit 0' or len(steps) < len(hist):
             i = min(len(steps), len(hist) - 1)
             lazy = any((op[0] in ('r', 'm') and op[-1]) or (op[0] == 'q' and op[4]) for op in hist[:i + 1])
+            hint = [l.strip() for l in self.stderr.split('\n') if 'ERROR: AddressSanitizer' in l or 'runtime error' in l
+                    or 'assertion failed' in l or 'ERROR:' in l]
             self.violation(hist, i, ('lazy|crash %s' % status) if lazy else 'crash|%s|%s' % (op_class(hist[i]), status),
-                           'driver child died (%s) while executing %s' % (status, op_text(hist[i])), 'exit 0', status)
+                           'driver child died (%s) while executing %s%s' % (
+                               status, op_text(hist[i]), (' [stderr of the batch: %s]' % hint[0][:160]) if hint else ''),
+                           'exit 0', status)
 
 
 # --------------------------------------------------------------- exploration ---
@@ -999,6 +1006,7 @@ def _work(chunk):
                 nstates = nedges + 1      # no de-duplication: every history is its own state
             res = rn.run(cfg, root, hists)
             ck = Checker(cfg, root, part)
+            ck.stderr, ck.asan = rn.last_stderr, asan
             for h, t in zip(hists, res):
                 ck.check(h, t)
             part.add(evaluations=len(hists), states=nstates, transitions=nedges)
@@ -1088,8 +1096,8 @@ def run(ctx):
 
 
 def replay(ctx, case):
-    b = cbuild.build(False)
-    pool = build_pool(b)
+    pool = build_pool(cbuild.build(False))
+    b = cbuild.build(bool(case.get('asan')))
     rn = Runner(b, pool, 'c17r')
     part = Part()
     try:
@@ -1118,7 +1126,11 @@ def replay(ctx, case):
                         for l in r.split('\n'):
                             print('      ' + l.replace(root + '/', ''))
         print('child status:', status)
-        Checker(cfg, root, part).check(hist, res[0])
+        ck = Checker(cfg, root, part)
+        ck.stderr = rn.last_stderr
+        ck.check(hist, res[0])
+        if rn.last_stderr.strip():
+            print('driver stderr:', rn.last_stderr.strip()[-600:])
         for key, desc, _ in part.violations:
             print('DIVERGENCE %s\n   %s' % (key, desc))
         return not part.violations
